@@ -531,6 +531,8 @@ def process_fn(src_obj, containers, name, opts, subs, log):
                 body = body[:kw] + seg[:mi.end()] + ' ' + ghost + ':' + seg[mi.end():] + body[bo:]
                 log.append('R6 ghost iterator')
     for kind, arg, lines in subs:
+        soft = kind.endswith('?')
+        kind = kind.rstrip('?')
         if kind == 'after-all':
             pos = 0
             cnt = 0
@@ -544,10 +546,13 @@ def process_fn(src_obj, containers, name, opts, subs, log):
                 body = body[:le] + ins + body[le:]
                 pos = le + len(ins)
                 cnt += 1
-            if cnt == 0:
+            if cnt == 0 and not soft:
                 raise LostAnchor(f'{name}: hint anchor `{arg}` not found')
         if kind in ('after', 'before'):
             idx = body.find(arg)
+            if idx < 0 and soft:
+                log.append(f'soft hint anchor `{arg}` absent: hint skipped')
+                continue
             if idx < 0:
                 raise LostAnchor(f'{name}: hint anchor `{arg}` not found')
             if kind == 'after':
